@@ -3,7 +3,7 @@ r"""Base classes of spatial coordinate transformations."""
 from __future__ import annotations
 
 from abc import ABCMeta, abstractmethod
-from copy import copy as shallow_copy
+from copy import copy as shallow_copy, deepcopy
 from typing import Optional, Tuple, TypeVar, Union, final, overload
 
 import torch
@@ -69,6 +69,22 @@ class SpatialTransform(DeviceProperty, Module, metaclass=ABCMeta):
         for name in ("_buffers", "_non_persistent_buffers_set", "_modules"):
             if name in self.__dict__:
                 copy.__dict__[name] = self.__dict__[name].copy()
+        return copy
+
+    def __deepcopy__(self: TSpatialTransform, memo: dict) -> TSpatialTransform:
+        r"""Make deep copy of this transformation.
+
+        Buffers that ``self.update()`` computed from optimizable parameters are not graph leaves,
+        which ``torch.Tensor.__deepcopy__()`` refuses to copy. The deep copy is given detached
+        copies of these buffers, which are replaced at the next call of its ``update()``.
+
+        """
+        for buf in self._buffers.values():
+            if isinstance(buf, Tensor) and not buf.is_leaf and id(buf) not in memo:
+                memo[id(buf)] = buf.detach().clone()
+        copy = self.__new__(type(self))
+        memo[id(self)] = copy
+        copy.__dict__ = deepcopy(self.__dict__, memo)
         return copy
 
     @overload
